@@ -34,7 +34,7 @@ import (
 // records of an exact size carrying their index
 
 // ffRecord builds a Forward event [EventTime(sec=idx+1, nsec=size), {"p": padding}] of exactly size bytes (size 12: empty
-// map; 15..46: fixstr padding; >= 47... str16 padding, which needs size >= 17). Encoded by hand, no library involved.
+// map; 15..46: fixstr padding; 47..65552: str16 padding; >= 65555: str32 padding). Encoded by hand, no library involved.
 func ffRecord(idx, size int) []byte {
 	b := make([]byte, 0, size)
 	b = append(b, 0x92, 0xd7, 0x00)
@@ -50,6 +50,10 @@ func ffRecord(idx, size int) []byte {
 	case size >= 47 && size-17 < 65536:
 		n := size - 17
 		b = append(b, 0x81, 0xa1, 'p', 0xda, byte(n>>8), byte(n))
+		b = append(b, padding(idx, n)...)
+	case size-19 >= 65536:
+		n := size - 19
+		b = append(b, 0x81, 0xa1, 'p', 0xdb, byte(n>>24), byte(n>>16), byte(n>>8), byte(n))
 		b = append(b, padding(idx, n)...)
 	default:
 		panic(fmt.Sprintf("harness bug: no Forward event of %d bytes", size))
@@ -667,6 +671,37 @@ func enumerate(ctx *seq.Ctx) {
 		}
 	}
 
+	// ---- Forward modes with the production limits (read back through the accessor; documented: 7 MiB, no record limit)
+	prodSize, prodRecords := fluentdforward.VerifSetChunkLimits(1, 1)
+	fluentdforward.VerifSetChunkLimits(prodSize, prodRecords)
+	ctx.Note("fluentdforward production limits", fmt.Sprintf("chunkMaxSizeBytes=%d chunkMaxRecords=%d", prodSize, prodRecords))
+	if prodSize > 1<<20 && prodSize < 1<<28 {
+		ctx.Group("forward/production-limits")
+		prodSizes := []int{12, 1<<20 + 1, prodSize / 2, prodSize - 1, prodSize, prodSize + 1}
+		prodLen := 2
+		if thorough {
+			prodLen = 3
+		}
+		for _, mode := range modes {
+			fam := &family{kind: "ff", mode: mode, maxSize: prodSize, maxRecords: prodRecords, tag: tag}
+			forEachSequence(prodSizes, prodLen, func(sizes []int, mask uint) bool {
+				if ctx.Stop() {
+					return false
+				}
+				if !ctx.Mine() {
+					ctx.Skip()
+					return true
+				}
+				id := fmt.Sprintf("prod/%s/%s", mode, sizesString(sizes, mask))
+				sz := append([]int(nil), sizes...)
+				ctx.Case(id, len(sz) > 1, id, func() (string, string) {
+					return fam.run(ctx, sz, func(i int) bool { return mask&(1<<uint(i)) != 0 }, clocksAll[0])
+				})
+				return true
+			})
+		}
+	}
+
 	// ---- Datadog: limits are constants (5 MiB uncompressed, 1000 records)
 	dd := &family{kind: "dd", tag: "ddtag"}
 	const M = ddMaxSize
@@ -728,7 +763,7 @@ func main() {
 		Rule: "every sequence of 1..5 (quick) / 1..6 (thorough) record sizes from {12 (smallest Forward event), 32, 63, 64, 65, 128} x every subset of FlushBuffer calls after the writes (2^n) through the real " +
 			"fluentdforward Config.NewChunkMaker in modes Forward, PackedForward, CompressedPackedForward with chunkMaxSizeBytes/chunkMaxRecords scaled through an overlay accessor to " +
 			"(64,0) (64,1) (64,2) (64,3) (0=unlimited,0) (0,2), chunk ID clock frozen (full depth) and +1ns-per-read / real (depth 3 quick, 6 thorough); the gzip mode, whose per-chunk compressor makes a case ~100x dearer, " +
-			"runs depth 4 for limits (64,0) (64,2), 3 for the others, 2 for the other clocks (quick) / 5, other clocks 4 (thorough); tags of 1,31,32,255,256,65536 bytes; " +
+			"runs depth 4 for limits (64,0) (64,2), 3 for the others, 2 for the other clocks (quick) / 5, other clocks 4 (thorough); tags of 1,31,32,255,256,65536 bytes; the production limits (7 MiB, no record limit) with sequences of 1..2 (quick) / 1..3 (thorough) sizes from {12, 1 MiB+1, max/2, max-1, max, max+1}; " +
 			"Datadog chunk maker (constant limits 5 MiB / 1000 records): sequences of 1..2 (quick) / 1..3 (thorough) sizes from {22, M/2-2, M/2-1, M-3, M-2, M-1, M+1, 2M} x 2^n flush subsets, and 999/1000/1001/2000/2001 records of 22/100 bytes x 9 flush positions x clocks. " +
 			"Oracle per run: each chunk decodes (msgpack token by token + fluentlib forwardprotocol.Message; stdlib gzip + encoding/json), tag, mode shape, option.size = records held, option.chunk = LogChunk.ID, ID accepted by MatchChunkID, usable as a file name and unique, " +
 			"payload bytes = the written records in order across chunks with nothing left after the final flush, FlushBuffer returns exactly everything buffered (nil iff nothing), chunk data stable after later writes, size/record limit exceeded only by a single-record chunk; " +
